@@ -246,7 +246,7 @@ def shard_add(args):
             if got != fc + gc or len(r) != len(fc) + len(gc) or r.s != f.s + g.s:
                 acc.failure("C06:add_result", case, "got %r" % (got,))
         # plain str on either side: the texts of the 820 universe values
-        for t in ("", "X", "XY", "x\ny"):
+        for t in ("", "X", "XY", "x\ny", "u\x9b1mv", "\x9b"):
             tc = [(c, ()) for c in t]
             for side in ("right", "left"):
                 case = {"f": C.show_spec(specs[i]), "str": t, "op": "add_str_" + side}
@@ -274,6 +274,7 @@ JOIN_POOL = (
     ("str", ""),
     ("str", "x"),
     ("str", "yz"),
+    ("str", "u\x9b1mv"),  # U+009B is an ordinary character of a plain str (only ESC sequences of str arguments are interpreted)
     ("fmt", (("p", (("fg", 31),)),)),
     ("fmt", (("q", (("bold", True), ("fg", 34))), ("", ()), ("r", ()))),
     ("fmt", ()),
@@ -417,8 +418,71 @@ def shard_special_operands(args):
     return acc.export()
 
 
+def shard_raw_twins(args):
+    """Two live values with the SAME terminal string (so equal, equal hash) but DIFFERENT text: one has formatted runs, in the other
+    every run is unformatted and holds the first one's escape sequences as ordinary characters (what `f + str(g)` builds).  Index,
+    slices, +, * and join on one, then the other, in both orders - each against its own cells."""
+    tier, seed, idx = args
+    from curtsies.formatstring import Chunk, FmtStr
+
+    acc = Acc(seed=seed)
+    sizes = (5, 12, 31, 64, 131, 300)
+    for si, n in enumerate(sizes):
+        if si % 6 != idx:
+            continue
+        for shape in ("runs7", "unit_runs", "plain_stretches"):
+            spec = C.scale_spec(n, shape)
+            for order in ("formatted_first", "raw_first"):
+                a = C.build(spec)
+                b = FmtStr(*[Chunk(c.color_str) for c in a.chunks])
+                if str(a) != str(b) or a != b or hash(a) != hash(b):
+                    acc.failure("harness:raw_twin", {"characters": n, "shape": shape}, "")
+                    continue
+                ca, cb = C.cells(a), C.cells(b)
+                objs = [("formatted", a, ca), ("raw", b, cb)]
+                if order == "raw_first":
+                    objs.reverse()
+                pts = sorted({0, 1, 2, 7, len(ca) // 2, len(ca) - 1, len(ca), len(cb) // 2, len(cb) - 3, len(cb)})
+                for x in pts:
+                    for y in pts + [None]:
+                        for who, obj, cells_ in objs + objs[:1]:
+                            case = {"value": {"characters": len(cells_), "runs": len(spec), "which": who}, "twin": "same terminal string, different text", "order": order, "op": "f[%r:%r]" % (x, y)}
+                            acc.case(True, key=("raw", n, shape, order, x, y, who))
+                            acc.transitions += 1
+                            try:
+                                r = obj[x:y]
+                                got = C.cells(r)
+                            except Exception as ex:  # noqa
+                                acc.failure("C06:slice_raises:" + type(ex).__name__, case, repr(ex))
+                                continue
+                            if got != cells_[x:y] or len(r) != len(cells_[x:y]) or r.s != "".join(c for c, _ in cells_[x:y]):
+                                acc.failure("C06:slice_result", case, "got %r expected %r" % (got[:6], cells_[x:y][:6]))
+                    for who, obj, cells_ in objs + objs[:1]:
+                        case = {"value": {"characters": len(cells_), "runs": len(spec), "which": who}, "twin": "same terminal string, different text", "order": order, "op": "f[%r]" % x}
+                        try:
+                            got = C.cells(obj[x])
+                        except IndexError:
+                            got = IndexError
+                        want = [cells_[x]] if x < len(cells_) else IndexError
+                        if got != want:
+                            acc.failure("C06:index_result", case, "got %r expected %r" % (got, want))
+                for who, obj, cells_ in objs + objs[:1]:
+                    for label, fn, want in (("f+f", lambda o: o + o, cells_ + cells_), ("f*2", lambda o: o * 2, cells_ * 2), ("f.join(['p', f])", lambda o: o.join(["p", o]), [("p", ())] + cells_ + cells_)):
+                        case = {"value": {"characters": len(cells_), "runs": len(spec), "which": who}, "twin": "same terminal string, different text", "order": order, "op": label}
+                        acc.transitions += 1
+                        try:
+                            r = fn(obj)
+                            if C.cells(r) != want or len(r) != len(want):
+                                acc.failure("C06:op_result", case, "got %r" % (C.cells(r)[:6],))
+                        except Exception as ex:  # noqa
+                            acc.failure("C06:op_raises:" + type(ex).__name__, case, repr(ex))
+    return acc.export()
+
+
 def run(ctx):
     rep = Report()
+    for d in ctx.pmap(shard_raw_twins, [(ctx.tier, ctx.seed, i) for i in range(6)]):
+        rep.merge(d, "raw_escape_twins_same_terminal_string_different_text")
     for d in ctx.pmap(shard_special_operands, [(ctx.tier, ctx.seed, i) for i in range(16)]):
         rep.merge(d, "str_subclass_operands_and_nested_joins")
     repeat.run_into(ctx, rep, "C06")
